@@ -269,7 +269,7 @@ func c05(c *core.Ctx) {
 		okRest := false
 		if len(pr) > 0 && pr[0] != nil {
 			for _, a := range callArgs(h) {
-				if core.Derived(pr[0])[a] {
+				if core.Derived(pr[0])[a] || core.SliceShallow(a)[pr[0]] {
 					okRest = true
 				}
 			}
